@@ -60,7 +60,7 @@ var RespVariants = map[string][]string{
 	"upgrade":    {"canonical", "absent", "case-name", "case-value", "blanks", "wrong", "empty", "dup-same", "dup-diff", "trailing-cr"},
 	"connection": {"canonical", "absent", "case-name", "case-value", "blanks", "wrong", "empty", "dup-same", "dup-diff", "list", "trailing-cr"},
 	"accept":     {"canonical", "absent", "case-name", "blanks", "other-key", "len27", "len29", "empty", "dup-same", "dup-diff", "lowercased", "noncanonical-base64", "one-char-off", "urlsafe-alphabet", "sha1-of-key-only", "quoted", "trailing-cr"},
-	"protocol":   {"none", "first", "last", "unrequested", "valid-then-unrequested", "unrequested-then-valid", "two-valid", "empty-value", "list", "case-changed"},
+	"protocol":   {"none", "first", "last", "unrequested", "valid-then-unrequested", "unrequested-then-valid", "two-valid", "empty-value", "list", "case-changed", "list-requested-first", "list-all-requested"},
 	"extensions": {"none", "first", "first-with-params", "all", "unoffered", "offered-then-unoffered", "malformed", "empty-value", "all-separate-lines", "separate-lines-then-unoffered"},
 	"extra":      {"none", "some", "long-value", "no-colon-line", "token-names", "blank-value"},
 	"eol":        {"crlf", "lf"},
@@ -245,8 +245,16 @@ func BuildResp(rng *rand.Rand, choice map[string]string, in ReqInfo) *Resp {
 		add(ph, "")
 		v.MarkOpen("empty subprotocol header")
 	case "list":
+		// the response names ONE subprotocol (RFC 6455 §4.2.2 /5); a comma-separated list is not a name the client
+		// requested, whichever names it contains ("must be one it requested, otherwise it fails")
 		add(ph, " "+strings.Join(append([]string{"x"}, in.Protocols...), ", "))
-		v.MarkOpen("subprotocol list in a response")
+		v.Reject("subprotocol value is a list, not a requested name")
+	case "list-requested-first":
+		add(ph, " "+in.Protocols[0]+", never-requested")
+		v.Reject("subprotocol value is a list, not a requested name")
+	case "list-all-requested":
+		add(ph, " "+strings.Join(append(append([]string(nil), in.Protocols...), in.Protocols[0]), ", "))
+		v.Reject("subprotocol value is a list, not a requested name")
 	case "case-changed":
 		up := strings.ToUpper(in.Protocols[0])
 		add(ph, " "+up)
